@@ -44,6 +44,7 @@ def plan(tier, seed):
     for c in range(4):
         shards.append(("sched", c, 4, tier))
     shards.append(("overlap_realloc",))
+    shards.append(("callers",))
     for c in range(4):
         shards.append(("scanpairs", c, 4, tier))
     if tier == "quick":
@@ -516,7 +517,34 @@ def _run_scanpairs(desc):
     return sh
 
 
+def _run_callers(desc):
+    """the kernels of this property that are declared threadsafe (the GIL is released while they run) as TWO CONCURRENT CALLERS on the
+    schedule-exploring runtime: pairs of different well-formed calls from the C20 call tables, every interleaving at the words both
+    touch within 2 preemptions; each call must leave in its arrays what it leaves when it runs alone"""
+    from vt.vrt import VRT, callers_interfere
+    from vt import sani
+    sh = Shard()
+    V = VRT()
+    for a, b in sani.threadsafe_pairs(('overlap_kernels', 'tosparse', 'sparse_kernels'), ('sparse_overlaps', 'compress_duplicates', 'coverlaps', 'tosparse_u16', 'tosparse_u32', 'tosparse_f32', 'sparse_is_sorted')):
+        bad, r = callers_interfere(V, a, b)
+        if r is None:
+            continue
+        case = {"kind": "callers", "calls": [a.describe(), b.describe()]}
+        for sched in (bad or [])[:1]:
+            sh.violation("concurrent-callers:%s-calls-interfere" % a.kernel, dict(case, schedule=sched), {"conflict_words": r["filter_size"]})
+        sh.states += r["nodes"]
+        sh.transitions += r["nodes"] - 1 + r["executions"]
+        sh.count("caller_pair_executions", r["total_executions"])
+        sh.evaluations += 1
+        sh.nontrivial += 1
+        sh.outcomes.add(("callers", a.kernel))
+    sh.sample(case, limit=1)
+    return sh
+
+
 def run_shard(desc):
+    if desc[0] == "callers":
+        return _run_callers(desc)
     if desc[0] == "scanpairs":
         return _run_scanpairs(desc)
     if desc[0] == "sched":
@@ -530,6 +558,10 @@ def run_shard(desc):
 
 
 def replay(case):
+    if case.get("kind") == "callers":
+        r = _run_callers(("callers",))
+        v = [x for x in r.violations if x["case"]["calls"] == case["calls"]]
+        return (not v), {"violations": v[:2]}
     sh = Shard()
     if case["kind"] == "scanpairs":
         r = _run_scanpairs(("scanpairs", 0, 1, "thorough"))
